@@ -24,100 +24,9 @@ section_of = z3.Function('section_of', OBJ, STR)
 base_of = z3.Function('base_name_of', OBJ, STR)
 valid_fn = z3.Function('valid', OBJ, STR, z3.BoolSort())
 value_fn = z3.Function('value', OBJ, STR, VALS)
-has_opt = z3.Function('cfg_has_option', STR, STR, z3.BoolSort())
-get_opt = z3.Function('cfg_get', STR, STR, STR)
 
 
-class StoreSpec(corevc.Spec):
-    views = {('InputStore', 'input_specs'): corevc.View('map', STR, OBJ)}
-
-    def sym_attr_call(self, it, obj, attr, args, node):
-        if obj.t.sort() == OBJ:
-            if attr == 'section' and not args:
-                return SV('str', section_of(obj.t))
-            if attr == 'base_name' and not args:
-                return SV('str', base_of(obj.t))
-            if attr == 'valid' and len(args) == 1:
-                it.ghost.setdefault('calls', []).append(('valid', sym.term(args[0])))
-                return SV('bool', valid_fn(obj.t, sym.term(args[0])))
-            if attr == 'value' and len(args) == 1:
-                it.ghost.setdefault('calls', []).append(('value', sym.term(args[0])))
-                return SV('obj', value_fn(obj.t, sym.term(args[0])))
-        return NotImplemented
-
-    def opaque_call(self, it, obj, attr, args, kwargs, node):
-        if obj.kind == 'config':
-            if attr == 'has_option' and len(args) == 2:
-                return SV('bool', has_opt(sym.term(args[0]), sym.term(args[1])))
-            if attr == 'get' and len(args) == 2 and set(kwargs) <= {'fallback'}:
-                it.ghost.setdefault('calls', []).append(('get', None))
-                got = get_opt(sym.term(args[0]), sym.term(args[1]))
-                if 'fallback' in kwargs:     # configparser: the fallback is returned exactly when the option is absent
-                    got = z3.If(has_opt(sym.term(args[0]), sym.term(args[1])), got, sym.term(kwargs['fallback']))
-                return SV('str', got)
-        raise Unsupported(f'opaque {obj.kind}.{attr}')
-
-
-def store_getitem():
-    from habutax import inputs
-    spec = StoreSpec()
-    fn = inputs.InputStore.__getitem__
-    fid = 'inputs.py:InputStore.__getitem__'
-
-    def make_state(it):
-        specs = ZMap.havoc(STR, OBJ, 'input_specs')
-        me = AObj(inputs.InputStore, {'input_specs': specs, 'config': Opaque(fresh('config', OBJ), 'config')}, name='store')
-        key = fresh('key', STR)
-        it.ghost['key'], it.ghost['specs'] = key, specs
-        return [me, SV('str', key)], {}
-    paths = corevc.run_function(fn, make_state, spec)
-    obs = []
-    res = {}
-
-    def note(label, ok, detail=''):
-        cur = res.setdefault(label, [True, 0, ''])
-        cur[1] += 1
-        if not ok:
-            cur[0], cur[2] = False, detail
-    for p in paths:
-        if p.outcome[0] == 'unsupported':
-            return [Ob(id='C11/InputStore.__getitem__/subset', status=oblig.UNDECIDED, function=fid, solver_output=p.outcome[1])]
-        it = p.interp
-        key, specs = it.ghost['key'], it.ghost['specs']
-        i = specs.val[key]
-        s = get_opt(section_of(i), base_of(i))
-        hyp = p.conds + p.facts
-        known, provided, valid = specs.has[key], has_opt(section_of(i), base_of(i)), valid_fn(i, s)
-
-        def must(c):
-            return smt.prove(hyp, c)[0] == 'discharged'
-        if p.outcome[0] == 'raise':
-            e = p.outcome[1]
-            if isinstance(e, inputs.MissingInputSpecification):
-                note('unknown-spec-is-reported-as-missing-specification-only-when-unknown', must(z3.Not(known)) and sym.term(e.input_name).sexpr() == key.sexpr(), str(e))
-            elif isinstance(e, inputs.MissingInput):
-                note('reported-missing-only-when-declared-and-not-supplied', must(z3.And(known, z3.Not(provided))), str(e))
-            elif isinstance(e, inputs.InvalidInput):
-                note('reported-invalid-only-when-supplied-and-rejected-by-the-validator', must(z3.And(known, provided, z3.Not(valid))) and sym.term(e.value).sexpr() == s.sexpr(), str(e))
-            else:
-                note('no-other-exception', False, repr(e))
-        else:
-            r = p.outcome[1]
-            ok = isinstance(r, SV) and r.t.sexpr() == value_fn(i, s).sexpr()
-            note('a-value-is-returned-only-when-declared-supplied-and-valid', must(z3.And(known, provided, valid)), '')
-            note('the-value-is-the-conversion-of-exactly-the-supplied-text', ok, str(r))
-            calls = [c for c, _ in it.ghost.get('calls', [])]
-            note('validated-before-converted', 'valid' in calls and 'value' in calls and calls.index('valid') < calls.index('value'), str(calls))
-    outcomes = {type(p.outcome[1]).__name__ if p.outcome[0] == 'raise' else 'return' for p in paths}
-    note('all-four-outcomes-reachable', outcomes == {'MissingInputSpecification', 'MissingInput', 'InvalidInput', 'return'}, str(outcomes))
-    for label, (ok, n, detail) in res.items():
-        oid = f'C11/InputStore.__getitem__/{label}'
-        if ok:
-            obs.append(Ob(id=oid, backend='symexec+z3', function=fid, clause=label.replace('-', ' '), vc=f'{n} path(s) of the real method'))
-        else:
-            obs.append(Ob(id=oid, status=oblig.REFUTED, backend='symexec+z3', function=fid, clause='NOT: ' + label, solver_output=detail, witness={'detail': detail},
-                          replay=native_store()))
-    return obs
+# InputStore.__getitem__ / provides / __setitem__ are verified in store_units.py (explicit ConfigParser contract incl. [DEFAULT]).
 
 
 def native_store():
@@ -451,7 +360,8 @@ def bounded_enumeration(tier):
 
 def run(tier, seed, t0):
     from . import solver_props as sp
-    tasks = [Task('store', store_getitem), Task('prompt', prompt_unit), Task('bounded', bounded_enumeration, tier, weight=5)]
+    from . import store_units
+    tasks = [Task('store', store_units.store_getitem), Task('provides', store_units.store_provides), Task('setitem', store_units.store_setitem), Task('prompt', prompt_unit), Task('bounded', bounded_enumeration, tier, weight=5)]
     for name, _, _ in input_cases():
         tasks.append(Task(f'input/{name}', input_class, name))
     tasks.append(Task('unit/solve', sp.unit_runner, 'solve', weight=10))
@@ -472,10 +382,12 @@ def run(tier, seed, t0):
     solver_part = su.finish_with_refutation('C11', [o for o in keep if o.id.startswith('C11/solver/')], lambda o: True, seed, tier)
     keep = [o for o in keep if not o.id.startswith('C11/solver/')] + solver_part
     return oblig.finish('C11', tier, seed, keep, t0,
-                        functions=['inputs.py:InputStore.__getitem__', 'inputs.py:InputStore.provides', 'inputs.py:Input.valid'] + [f'inputs.py:{n}' for n, _, _ in input_cases()] + ['__init__.py:prompt_input', 'solver.py:Solver._attempt_input', 'solver.py:Solver._attempt_field'],
+                        functions=['inputs.py:InputStore.__getitem__', 'inputs.py:InputStore.provides', 'inputs.py:InputStore.__setitem__', 'inputs.py:Input.valid'] + [f'inputs.py:{n}' for n, _, _ in input_cases()] + ['__init__.py:prompt_input', 'solver.py:Solver._attempt_input', 'solver.py:Solver._attempt_field'],
                         trusted_base=base.TRUSTED,
                         assumptions=base.assumptions('A-PY', 'A-BUILTIN', 'A-CFG', 'A-ENUM') + [
                             'A-BUILTIN float(): raises ValueError or returns; after stripping, [+-]?(inf|infinity|nan) in any case is accepted and not finite; finiteness of other accepted text (e.g. 1e999) is an uninterpreted predicate that the code has to test',
                             'str.strip/lower/replace and compiled-regex match are uninterpreted functions of the text',
-                            'prompt_input: the retry loop is abstracted by the havoc rule (value is None or any string)'],
+                            'prompt_input: the retry loop is abstracted by the havoc rule (value is None or any string)',
+                            'A-CFG is the explicit ConfigParser contract of pyvc/props/store_units.py (sections, own options, [DEFAULT] options; has_option/get/add_section/set/sections/defaults); option names lower-case (C17), no % interpolation',
+                            'contracts/input_grammar.py: which texts denote a value, per input class (from format_suggestion() and the README)'],
                         checker_cmd='./check C11', min_obligations=40)
